@@ -349,6 +349,30 @@ def parseArxml (fuel : Nat) (nmAutosar : Nat) : P (Hdr × Items) :=
     | _ => hardErr kInvalidArxmlFileHeader
   | _ => hardErr kInvalidArxmlFileHeader
 
+/-- `check_arxml_header` (behind `check_buffer` / `check_file`, which build a LENIENT parser): the xml header, comments, the start
+tag of the root element with its attributes, the file header -/
+def checkHeader (fuel : Nat) (nmAutosar : Nat) : P Unit :=
+  bind' (nextTok true) fun ev0 =>
+  match ev0 with
+  | .header _ =>
+    bind' (nextTok true) fun ev1 =>
+    bind' (skipComments fuel none ev1) fun (_, ev) =>
+    match ev with
+    | .beginElement nm attrText =>
+      if V.elemOf nm = some nmAutosar then
+        bind' (parseAttrs S V (S.ety S.rootDef).typ attrText) fun attrs =>
+        parseFileHeader V attrs
+      else hardErr kInvalidArxmlFileHeader
+    | _ => hardErr kInvalidArxmlFileHeader
+  | _ => hardErr kInvalidArxmlFileHeader
+
+/-- `check_buffer` -/
+def checkBuffer (buf : Bytes) (nmAutosar : Nat) : Bool :=
+  match (checkHeader S V (2 * buf.length + 8) nmAutosar false
+      { warnings := [], line := 1, lx := Lex.init buf, nextId := 0 }).1 with
+  | .ok _ => true
+  | .error _ => false
+
 /-- run the parser on a buffer; element ids start at `firstId` -/
 def runParser (strict : Bool) (buf : Bytes) (firstId : Nat) (nmAutosar : Nat) : Except PErr (Hdr × Items) × PState :=
   parseArxml S V (2 * buf.length + 8) nmAutosar strict
